@@ -80,6 +80,16 @@ Verdict(e) ==
       md == ModelDiff(exp, e.result)
   IN IF e.want \in {"model", "links"} /\ ~WellFormed(e.doc) THEN "generator:not-well-formed"
      ELSE IF md # "" THEN (IF ModelDiff(asb, e.result) = "" THEN "regression:as-built-resolution-or-comment-equality(" \o md \o ")" ELSE md)
+     ELSE IF e.want = "props"
+          THEN \* C15: the same text with the option off is a syntax error iff it uses property syntax;
+               \* a property-free document is parsed and rendered identically under both values
+               LET off == ParseDoc(e.doc, FALSE)
+                   od == ModelDiff(off, e.obs.off)
+                   plain == \A i \in DOMAIN e.doc : e.doc[i].d = "table" => ~UsesProps(e.doc[i])
+               IN IF od # "" THEN "option-off:" \o od
+                  ELSE IF plain /\ ~e.obs.same_dbml THEN "option changes .dbml of a property-free document"
+                  ELSE IF plain /\ ~e.obs.same_sql THEN "option changes .sql of a property-free document"
+                  ELSE ""
      ELSE IF e.want = "links" /\ exp.kind = "db"
           THEN LinkDiff(exp, e.links)
      ELSE ""
